@@ -235,6 +235,28 @@ def gen(R):
             initial[p] = {"gen": g, "imports": imps}
     app_conf = R.choice([None, {"x": 1}, {"x": 1}])
     ops = []
+    if R.bool(1, 5):
+        # structured start: a chain script -> package -> (relative) sibling -> leaf module, or a diamond below two scripts;
+        # the leaf is edited and a default reload requested first, the generated steps follow
+        chain = R.choice(["pkg-chain", "diamond"])
+        if chain == "pkg-chain":
+            forced = {"a.py": [1], "modules/pkg/__init__.py": [0], "modules/pkg/sub.py": [0], "modules/m1.py": []}
+            leaf = "modules/m1.py"
+        else:
+            forced = {"a.py": [0, 3], "b.py": [2], "modules/m1.py": [0], "modules/m12.py": [0], "modules/pkg/__init__.py": [1], "modules/m3.py": []}
+            leaf = "modules/m3.py"
+        for fp, imps in forced.items():
+            g += 1
+            initial[fp] = {"gen": g, "imports": imps}
+            cur_imports[fp] = imps
+        if cyclic(cur_imports):
+            for fp in list(initial):
+                if fp not in forced:
+                    del initial[fp]
+                    cur_imports.pop(fp, None)
+        g += 1
+        ops.append({"op": "modify", "path": leaf, "gen": g, "imports": [], "broken": False})
+        ops.append({"op": "reload", "which": None})
     exists = set(initial)  # create only takes effect for a missing file, modify only for an existing one
     for _ in range(R.int(2, 10)):
         k = R.weighted([(4, "modify"), (2, "touch"), (2, "create"), (2, "delete"), (1, "comment"), (1, "uncomment"), (3, "appconf"), (6, "reload"), (2, "bump"), (1, "reload_overlap"), (1, "break_named")])
